@@ -110,7 +110,8 @@ pub fn abstract_tok(to: &str, server_name: &str, tok: &Tok) -> Vec<Value> {
         }
         return vec![msg(to, "s", &c.to_ascii_uppercase(), "", "", p.clone())];
     }
-    let cl = p.get(0).cloned().unwrap_or_default();
+    // the addressee of 433 depends on registration timing (claimed nick vs user/host name)
+    let cl = if c == "433" { String::new() } else { p.get(0).cloned().unwrap_or_default() };
     let rest: Vec<String> = p.iter().skip(1).cloned().collect();
     let last = rest.last().cloned().unwrap_or_default();
     let m = |a: Vec<String>| msg(to, "n", c, &cl, "", a);
